@@ -319,6 +319,10 @@ namespace Pistache
             host_   = data.substr(start_pos, end_pos + 1);
             family_ = AF_INET6;
             ++end_pos;
+            // Only a ":port" may follow the bracketed literal: "[::1]8080" is not
+            // the address ::1 with the default port
+            if (end_pos < data.size() && data[end_pos] != ':')
+                throw std::invalid_argument("Invalid address");
         }
         else
         {
